@@ -183,6 +183,8 @@ def run(chk: Check):
     from .. import constfold
     rule_k6(chk, constfold.fold_tokenize(), ix, False)
     rule_w1(chk, ir, False, "W1-memo-barrier")
+    from .c08 import rule_l5
+    rule_l5(chk, ix)
     chk.floor("M3-flag-typestate", 12)
     chk.floor("N2-path-token", 1)
     chk.floor("M5-indent-balance", 4)
